@@ -19,3 +19,11 @@ Proof. exact vanilla_source_dec_calls. Qed.
 
 Print Assumptions C07_source_enc_calls.
 Print Assumptions C07_source_dec_calls.
+
+(* the constructors as translated: both halves hold the session key itself and start at (0, 0); the
+   combined object holds exactly these two halves *)
+Theorem C07_source_new : forall K,
+  tr_vanilla_encrypter_new K = Some (K, 0, 0) /\ tr_vanilla_decrypter_new K = Some (K, 0, 0) /\
+  tr_vanilla_crypto_new K = Some ((K, 0, 0), (K, 0, 0)).
+Proof. intros K. repeat split. Qed.
+Print Assumptions C07_source_new.
